@@ -34,7 +34,8 @@ def _verify_one(q):
     from .verify import verify_function
     reg = load_all()
     try:
-        rep = verify_function(reg, q, {"timeout_ms": int(os.environ.get("PYVC_TIMEOUT_MS", "10000"))})
+        rep = verify_function(reg, q, {"timeout_ms": int(os.environ.get("PYVC_TIMEOUT_MS", "10000")),
+                                       "make_hints": bool(os.environ.get("PYVC_MAKE_HINTS"))})
         d = rep.to_json()
         if getattr(rep, "trace", None):
             d["trace"] = rep.trace
@@ -45,10 +46,31 @@ def _verify_one(q):
 
 
 def verify_many(qualnames, jobs=None):
+    """The verification conditions are generated in a child interpreter with PYTHONHASHSEED=0: the text of a condition
+    (argument order of conjunctions built from sets) must not vary from run to run, proof hints are keyed by it.  The
+    bounded stand-ins keep the hash seed of the calling process."""
+    if os.environ.get("PYTHONHASHSEED") == "0" or not qualnames:
+        return _verify_many(qualnames, jobs)
+    import subprocess
+    import tempfile
+    with tempfile.NamedTemporaryFile("r", suffix=".json", dir=os.environ.get("PYVC_TMP") or "/var/tmp") as f:
+        p = subprocess.run([sys.executable, "-m", "pyvc.cli", "_verify", f.name] + list(qualnames),
+                           env=dict(os.environ, PYTHONHASHSEED="0"), cwd=ROOT)
+        try:
+            return json.load(f)
+        except ValueError:
+            return [dict(qualname=q, status="error", detail=f"verification worker failed (exit {p.returncode})", trace="",
+                         obligations=[], inlined=[], externals=[], seconds=0.0, sha=None, properties=[]) for q in qualnames]
+
+
+def _verify_many(qualnames, jobs=None):
     jobs = jobs or min(16, max(1, len(qualnames)))
     if len(qualnames) <= 1 or jobs == 1:
         return [_verify_one(q) for q in qualnames]
     ctx = mp.get_context("fork")
+    # every function may have 16 queries in flight, but at most PYVC_SOLVERS solver processes exist at a time overall
+    from . import verify
+    verify.SOLVER_SLOTS = ctx.BoundedSemaphore(int(os.environ.get("PYVC_SOLVERS", "16")))
     with ctx.Pool(jobs) as pool:
         return pool.map(_verify_one, qualnames, chunksize=1)
 
@@ -359,7 +381,16 @@ def main(argv=None):
         return 3
     if argv[0] == "lock":
         return cmd_lock()
+    if argv[0] == "_verify":
+        res = _verify_many(argv[2:])
+        with open(argv[1], "w") as f:
+            json.dump(res, f, default=str)
+        return 0
     if argv[0] == "func":
+        return cmd_func(argv[1:])
+    if argv[0] == "hints":
+        # (maintenance) search proofs, record the assumptions they used in hints/<function>.json
+        os.environ["PYVC_MAKE_HINTS"] = "1"
         return cmd_func(argv[1:])
     if argv[0] == "replay":
         return cmd_replay(argv[1])
